@@ -82,7 +82,9 @@ func TestVerifC15Log(tt *testing.T) {
 		"anon-answered", "prof-log-ip", "prof-log-noip", "prof-nolog-ip", "prof-nolog-noip",
 		"dropped-access", "dropped-ratelimit-global", "dropped-ratelimit-profile", "dropped-unknown-dedicated",
 		"oc-none", "oc-req-blocked", "oc-resp-blocked", "oc-req-allowed", "oc-resp-allowed", "oc-rewritten", "oc-cname-rewritten",
-		"debug-profile", "filtering-disabled", "logged-no-location", "logged-escaped-rule", "dropped-profile-logging-on")
+		"debug-profile", "filtering-disabled", "logged-no-location", "logged-escaped-rule", "dropped-profile-logging-on",
+		"logged-both-req-blocked+resp-blocked", "logged-both-req-blocked+resp-allowed", "logged-both-req-allowed+resp-blocked",
+		"logged-both-req-allowed+resp-allowed", "logged-both-rewritten+resp-blocked", "logged-both-other-rule")
 	st.Finish(tt)
 
 	opts := vfsOpts{AccessHeavy: false, Drops: true}
@@ -239,7 +241,7 @@ func TestVerifC15Log(tt *testing.T) {
 				}
 
 				if pc.QLog != pc.IPLog {
-					nt = fmt.Sprintf("%s|%s|%s|%s|%d|%t|%t", cl, vfsOutcomeNames[r.Script.Outcome], r.Server, drop, r.QType, vfsLocOf(r.Client) != nil, r.Debug())
+					nt = fmt.Sprintf("%s|%s+%s|%s|%s|%d|%t|%t", cl, vfsOutcomeNames[r.Script.Outcome], vfsOutcomeNames[r.Script.RespToo], r.Server, drop, r.QType, vfsLocOf(r.Client) != nil, r.Debug())
 				}
 			}
 
@@ -346,6 +348,16 @@ func TestVerifC15Log(tt *testing.T) {
 					classes = append(classes, "logged-no-location")
 				} else if l.C == nil || l.A == nil || *l.C != string(loc.Country) || *l.A != uint32(loc.ASN) {
 					fail("line %q: client country/ASN are not %+v", line, loc)
+				}
+
+				// Both stages produced a result: the line above was required to
+				// carry the request-stage code, list and rule.
+				// (Counted only if the entry really carries both results.)
+				if outcome != vfsOutNone && r.Script.RespToo != vfsOutNone && e.RequestResult != nil && e.ResponseResult != nil {
+					classes = append(classes, "logged-both-"+vfsOutcomeNames[outcome]+"+"+vfsOutcomeNames[r.Script.RespToo])
+					if r.Script.RespList != list || r.Script.RespRule != rule {
+						classes = append(classes, "logged-both-other-rule")
+					}
 				}
 
 				if outcome != vfsOutNone && strings.ContainsAny(string(rule), "\"\\\t<>&") {
